@@ -92,6 +92,11 @@ var props = map[string]propSpec{
 		Rule: "sub-check class-product enumerates completely, for each of the 36 operations in the table (arithmetic with and without mode, QuoRem, Pow, Min/Max, roots, the eight exp/log functions, rounding functions, sign/scale operations, float64 round trip), every pair of 65 operand-class representatives (NaN canonical/signed/payload/signalling/all-ones, +-Inf canonical and with garbage bits, +-0 at four exponents, +-1 in three cohorts, fractions, half-integers, odd/even/large integers): result class (NaN, +-Inf, +-0, +-finite) against the corresponding float64 operation, NaN operands propagated bit for bit, invalid-operation NaNs carrying Payload = Op(class[, class]). Sub-check special repeats this on rapid-drawn members of each class (random cohort members, payloads, garbage bits, dyadic fractions, large exact integers). Sub-check predicates: IsNaN/IsInf/IsZero/Signbit against the independent decoder on generated patterns. Non-trivial = at least one special (NaN/Inf/zero) operand or special pattern; distinct = distinct (operation, operand bits).",
 		Assumptions: append([]string{"Go's math package is the reference for special-case results (as the property states), except Min/Max with a NaN operand where the property itself says NaN"}, commonAssumptions...),
 	},
+	"C19": {
+		QuickShards: 8, ThoroughShards: 16,
+		Rule: "sub-check cohort: rapid draws an operation from a table of 56 entry points (arithmetic with and without mode, QuoRem, Pow, comparisons, Min/Max, sign operations, Canonical, rounding with random dp and mode, roots, the eight exp/log functions, Frexp/Ldexp, predicates, all float/integer/rational conversions, String/MarshalText/MarshalJSON/%v, Sprintf and Decimal.Append with random specs, Format/Append with random verb and precision, Decompose) and operands together with a second encoding of each operand's value (another cohort member, a zero with another exponent, NaN with another payload, Inf with other garbage bits); the operation is evaluated on (x,y), (x',y), (x,y'), (x',y') and all results must agree in class, sign, exact value (strings byte for byte, conversion results and ok flags identically, payload strings for invalid operations). Sub-check canonical: Equal/sign, idempotence, expected bits computed from the decoded parts (exponent closest to zero over the whole cohort; canonical NaN/Inf/zero), and Canonical(a)==Canonical(b) iff a Equal b. Non-trivial = the two encodings differ in bits; distinct = distinct argument tuple.",
+		Assumptions: commonAssumptions,
+	},
 	"C01": {
 		QuickShards: 8, ThoroughShards: 16,
 		Rule: "rapid draws operand pairs (independent; exponent gap -45..45; tie/near-tie constructor at the 34/35-digit boundary; near-cancellation across cohorts; swallowed operand up to gap 12287; zeros; overflow edge) and add/sub; every pair is evaluated under all 6 modes and under all 6 DefaultRoundingMode values against the exact integer sum rounded by ref.RoundX. Non-trivial = the exact sum is not representable (rounding decides) or the operands cancel exactly; distinct = distinct (x bits, y bits, op).",
